@@ -177,6 +177,24 @@ def _parse_is_utc(ex, st, post, result):
            'If-Modified-Since is parsed with email.utils.parsedate and converted with calendar.timegm (GMT), never mktime')
     if gm:
         yield ('result_is_timegm', eq(result, gm[-1][1].result), 'the result is the GMT timestamp')
+    if gm and len(pd) == 1:
+        parsed = pd[0][1].result
+        parsed = parsed.val if hasattr(parsed, 'isnone') else parsed
+        arg = gm[-1][1].args[0]
+        arg = arg.val if hasattr(arg, 'isnone') else arg
+        good = hasattr(arg, 'items') and arg.items is not None and len(arg.items) == len(parsed.items) == 9
+        g = z3.BoolVal(bool(good))
+        if good:
+            y = parsed.items[0].t
+            g = z3.And(g, arg.items[0].t == z3.If(y < 1970, y + 2000, y), *[eq(a, b) for a, b in zip(arg.items[1:], parsed.items[1:])])
+        yield ('two_digit_years_are_2000s', g,
+               'the tuple converted is the parsed date, unchanged except that a year before 1970 (a two-digit year) is read as '
+               '2000 + year')
+    if len(pd) == 1:
+        r = pd[0][1].result
+        isn = r.isnone if hasattr(r, 'isnone') else z3.BoolVal(False)
+        res_none = result.isnone if hasattr(result, 'isnone') else z3.BoolVal(result is None or type(result).__name__ == 'VNone')
+        yield ('malformed_date_is_none', isn == res_none, 'an unparseable date gives None (the header is then ignored), a parseable one a timestamp')
 
 
 contract('mapproxy.util.times:parse_httpdate', props=['C20'],
